@@ -222,7 +222,7 @@ def job(n, seed):
 
 
 def jobs(tier, seed):
-    k = 1 if tier == "quick" else 40
+    k = 1 if tier == "quick" else 20
     return [{"fn": "vf.props.c17:job", "args": {"n": 100 * k, "seed": seed * 1000 + s}} for s in range(16)]
 
 
